@@ -19,6 +19,7 @@ type Ctx struct {
 	Tier    string
 	Variant string
 	mach    map[string]*fsmx.Machine
+	siteIdx map[ssa.CallInstruction][]*ssa.Function
 }
 
 type RuleFunc func(c *Ctx)
